@@ -154,7 +154,7 @@ def validate(ck, L, tp, evs, tag):
 def run(tier):
     ck = core.Check(PID, tier, "model_checking")
     od = ck.outdir
-    for cfg in ["CoverBest.cfg", "CoverBest_big.cfg"]:
+    for cfg in ["CoverBest.cfg", "CoverBest_big.cfg", "CoverBest_live.cfg"]:
         r = core.run_tlc("CoverBest", cfg, tag="c18-" + cfg, timeout=1800)
         ck.model("CoverBest(%s)" % cfg, r, {})
         if r.violated:
